@@ -117,6 +117,10 @@ type c15rigStore struct {
 	held  []string
 	ch    chan map[string]*string
 	dels  int
+	// putHook (optional; a func(key string) stored by a harness) is called at the start of every
+	// put, before the data reaches the inner storage: a harness can hold a put there ("the storage
+	// is slow right now").  Unset = no effect.
+	putHook atomic.Value
 }
 
 var _ storage = (*c15rigStore)(nil)
@@ -129,7 +133,12 @@ func (s *c15rigStore) get(key string) (*string, error) { return s.inner.get(key)
 func (s *c15rigStore) getPrefix(prefix string, keysOnly bool) (map[string]string, error) {
 	return s.inner.getPrefix(prefix, keysOnly)
 }
-func (s *c15rigStore) put(key, value string) error { return s.inner.put(key, value) }
+func (s *c15rigStore) put(key, value string) error {
+	if h, _ := s.putHook.Load().(func(string)); h != nil {
+		h(key)
+	}
+	return s.inner.put(key, value)
+}
 func (s *c15rigStore) delete(key string) error {
 	// inner.watchFlag is never set (nobody calls inner.watchDelete), so inner emits no event
 	err := s.inner.delete(key)
@@ -363,6 +372,49 @@ func c15rigQuiesce(creator string) bool {
 	deadline := time.Now().Add(c15rigWatchdog)
 	for i := 0; ; i++ {
 		if c15rigSpawnedBy(creator) == 0 {
+			return true
+		}
+		if time.Now().After(deadline) {
+			return false
+		}
+		if i < 20 {
+			runtime.Gosched()
+			time.Sleep(200 * time.Microsecond)
+		} else {
+			time.Sleep(2 * time.Millisecond)
+		}
+	}
+}
+
+// c15rigReadLoopsParked waits until every goroutine that is inside (*Client).readLoop is blocked in
+// a socket read (goroutine state "IO wait" under packets.ReadPacket) or no such goroutine is
+// left; a read loop in any other state is on its way to one of the two.  false = watchdog.
+func c15rigReadLoopsParked() bool {
+	deadline := time.Now().Add(c15rigWatchdog)
+	for i := 0; ; i++ {
+		buf := make([]byte, 1<<20)
+		for {
+			n := runtime.Stack(buf, true)
+			if n < len(buf) {
+				buf = buf[:n]
+				break
+			}
+			buf = make([]byte, 2*len(buf))
+		}
+		moving := 0
+		for _, g := range strings.Split(string(buf), "\n\n") {
+			if !strings.Contains(g, "mqttproxy.(*Client).readLoop") {
+				continue
+			}
+			head := g
+			if k := strings.IndexByte(g, '\n'); k >= 0 {
+				head = g[:k]
+			}
+			if !(strings.Contains(head, "[IO wait") && strings.Contains(g, "packets.ReadPacket")) {
+				moving++
+			}
+		}
+		if moving == 0 {
 			return true
 		}
 		if time.Now().After(deadline) {
